@@ -38,7 +38,7 @@ type C01Case struct {
 func c01Opts() gen.WorldOpts {
 	return gen.WorldOpts{
 		Schema:   gen.SchemaOpts{MaxDepth: 2},
-		Cfg:      gen.CfgOpts{Violations: 8, Layout: true},
+		Cfg:      gen.CfgOpts{Violations: 8, Layout: true, HalfTyped: 6},
 		MaxPaths: 2, MaxFiles: 2, Faults: true, JSONFiles: true, Edits: 2, NoSchema: 4,
 	}
 }
